@@ -207,6 +207,7 @@ pub fn fin_plan(n_max: u8) -> BoxedStrategy<FinPlan> {
         snapshot: 0,
         timetravel: 0,
         lowlevel: 0,
+        mergecommit: 0,
         rich: false,
         rich_info: false,
     };
